@@ -71,16 +71,30 @@ type tap struct {
 	bytes int
 	last  time.Time
 	stop  chan struct{}
+	synced chan struct{}
+}
+
+const syncType = -4242
+
+// sync returns when the tap has recorded every message the hub had put into its channel before the call
+// (the channel is FIFO: a marker put in by the harness itself comes out after them).
+func (t *tap) sync() {
+	t.cl.Send <- hub.Message{Type: syncType}
+	<-t.synced
 }
 
 func (h *host) newTap(topic string) *tap {
 	t := &tap{cl: &hub.Client{Hub: h.app.Hub.Hub, Name: "verif-tap", Topic: topic, Send: make(chan hub.Message, 4096), Stats: hub.NewClientStats()},
-		index: map[msgKey]int{}, stop: make(chan struct{})}
+		index: map[msgKey]int{}, stop: make(chan struct{}), synced: make(chan struct{}, 1)}
 	h.app.Hub.Register <- t.cl
 	go func() {
 		for {
 			select {
 			case m := <-t.cl.Send:
+				if m.Type == syncType {
+					t.synced <- struct{}{}
+					continue
+				}
 				cp := append([]byte{}, m.Data...)
 				t.mu.Lock()
 				t.index[msgKey{m.Sent.UnixNano(), len(m.Data)}] = len(t.msgs)
@@ -159,6 +173,7 @@ func (c *consumer) look(m hub.Message, t *tap, log *[]evLog, at int) {
 
 // act: what the consumer does between two bursts (final = the stream is over: look at everything)
 func (c *consumer) act(t *tap, log *[]evLog, final bool) {
+	t.sync()
 	at, _, _ := t.state()
 	hold := c.spec.Hold
 	if final {
@@ -231,33 +246,29 @@ func buildEvents(s Stream, tapLens []int, cuts []int, log []evLog) []Ev {
 	return evs
 }
 
-// locate: where the hand-offs sit in the input.  Returns the cut positions, or a reason why the observation
-// is not a sequence of slices (left to the oracle) - in that case cuts follow the lengths only.
+// locate: where the hand-offs sit in the input.  cuts[k] = how many input bytes had been written when
+// hand-off k was flushed (its end, plus whatever was thrown away behind it when it filled the buffer).
+// A hand-off that is not where it should be is left where the lengths put it: the oracle reports it.
 func locate(input []byte, taps [][]byte, maxf int) (cuts []int, starts []int, ambiguous string) {
 	pos := 0
 	for k, m := range taps {
 		start := pos
-		if k > 0 && len(taps[k-1]) == maxf && !bytes.HasPrefix(input[min(pos, len(input)):], m) {
-			// bytes were thrown away behind a full frame: the next message starts further on
-			i := bytes.Index(input[min(pos, len(input)):], m)
-			if i < 0 {
-				ambiguous = ""
-			} else {
+		rest := input[min(pos, len(input)):]
+		if !bytes.HasPrefix(rest, m) && k > 0 && len(taps[k-1]) == maxf {
+			if i := bytes.Index(rest, m); i >= 0 {
 				start = pos + i
-				if j := bytes.Index(input[min(start+1, len(input)):], m); j >= 0 && len(m) < 64 {
-					ambiguous = fmt.Sprintf("hand-off %d (%d bytes) matches the input at more than one place after a truncated frame", k, len(m))
+				if len(m) < 64 && bytes.Contains(input[min(start+1, len(input)):], m) {
+					ambiguous = fmt.Sprintf("hand-off %d (%d bytes) matches the input at more than one place behind a truncated frame", k, len(m))
 				}
-			}
-			if len(cuts) > 0 {
-				cuts[len(cuts)-1] = start
+				cuts[k-1] = start
 			}
 		}
 		starts = append(starts, start)
 		pos = start + len(m)
-		cuts = append(cuts, pos)
+		cuts = append(cuts, min(pos, len(input)))
 	}
-	if len(taps) > 0 && len(taps[len(taps)-1]) == maxf && pos < len(input) {
-		cuts[len(cuts)-1] = len(input) // the rest was thrown away behind the last (full) frame
+	if n := len(taps); n > 0 && len(taps[n-1]) == maxf && pos < len(input) {
+		cuts[n-1] = len(input) // the rest was thrown away behind the last (full) frame
 	}
 	return
 }
@@ -545,37 +556,58 @@ func runReverse(s *Stream) {
 	h.barrier()
 	input := genBytes(s.Seed, 0, s.total())
 	off, sent := 0, 0
-	var reads []Read
+	type sentMsg struct{ off, n int }
+	var sents []sentMsg
 	for _, b := range s.Bursts {
 		for _, n := range b.Chunks {
-			msg := input[off : off+n]
-			if err := dc.WriteMessage(websocket.BinaryMessage, msg); err != nil {
+			if err := dc.WriteMessage(websocket.BinaryMessage, input[off:off+n]); err != nil {
 				o.Err = "write: " + err.Error()
 				return
 			}
+			sents = append(sents, sentMsg{off, n})
 			sent++
 			if !t.waitCount(sent, 2*time.Second) {
 				o.Err = fmt.Sprintf("message %d from the destination was not handed on within 2 s", sent-1)
 				return
 			}
 			h.barrier()
-			select {
-			case d := <-rx:
-				o.Events = append(o.Events, Ev{T: "M", Off: off, N: n}, Ev{T: "C", C: 0})
-				reads = append(reads, Read{K: sent - 1, AtRead: d, Later: d})
-			case <-time.After(60 * time.Millisecond):
-				// the feed client's writePump was not waiting when the hub offered the message
-				o.Events = append(o.Events, Ev{T: "B", C: 0}, Ev{T: "M", Off: off, N: n})
-			}
+			time.Sleep(500 * time.Microsecond)
 			off += n
 		}
 		time.Sleep(time.Duration(b.PauseMs) * time.Millisecond)
 	}
 	o.Posted = off
+	// what the feed client received (nothing new for 80 ms = that is all)
+	var got [][]byte
+collect:
+	for {
+		select {
+		case d := <-rx:
+			got = append(got, d)
+		case <-time.After(80 * time.Millisecond):
+			break collect
+		}
+	}
 	close(t.stop)
 	t.mu.Lock()
 	o.Tap = t.msgs
 	t.mu.Unlock()
+	// the hub offers a message to the feed client's writePump only if that goroutine is waiting at that
+	// instant: which messages got through is part of the schedule (Busy = it was not waiting)
+	var reads []Read
+	gi := 0
+	for k, m := range sents {
+		if gi < len(got) && bytes.Equal(got[gi], input[m.off:m.off+m.n]) {
+			o.Events = append(o.Events, Ev{T: "M", Off: m.off, N: m.n}, Ev{T: "C", C: 0})
+			reads = append(reads, Read{K: k, AtRead: got[gi], Later: got[gi]})
+			gi++
+		} else {
+			o.Events = append(o.Events, Ev{T: "B", C: 0}, Ev{T: "M", Off: m.off, N: m.n})
+		}
+	}
+	for ; gi < len(got); gi++ { // received but never sent, or out of order: for the oracle
+		reads = append(reads, Read{K: -1, AtRead: got[gi], Later: got[gi]})
+	}
 	o.Reads = [][]Read{reads}
 }
 
